@@ -5,12 +5,20 @@ use crate::core::{CaseResult, Env, Fail, Report};
 use serde_json::Value;
 use std::path::Path;
 
+pub mod c01;
 pub mod c02;
+pub mod c03;
+pub mod c04;
+pub mod decide;
+pub mod shadow;
+pub mod trkmon;
 pub mod c07;
 pub mod c08;
 pub mod c09;
 pub mod c10;
 pub mod c11;
+pub mod c12;
+pub mod c13;
 pub mod c14;
 pub mod c15;
 pub mod c16;
@@ -38,12 +46,17 @@ impl PropDef {
 
 pub fn registry() -> Vec<PropDef> {
     vec![
+        PropDef { id: "C01", level: "exploration", run: c01::run, replay: c01::replay, replay_isolated: None },
         PropDef { id: "C02", level: "exploration", run: c02::run, replay: c02::replay, replay_isolated: None },
+        PropDef { id: "C03", level: "exploration", run: c03::run, replay: c03::replay, replay_isolated: None },
+        PropDef { id: "C04", level: "exploration", run: c04::run, replay: c04::replay, replay_isolated: None },
         PropDef { id: "C07", level: "exploration", run: c07::run, replay: c07::replay, replay_isolated: None },
         PropDef { id: "C08", level: "exploration", run: c08::run, replay: c08::replay, replay_isolated: None },
         PropDef { id: "C09", level: "exploration", run: c09::run, replay: c09::replay, replay_isolated: None },
         PropDef { id: "C10", level: "exploration", run: c10::run, replay: c10::replay, replay_isolated: None },
         PropDef { id: "C11", level: "fault_enumeration", run: c11::run, replay: c11::replay, replay_isolated: None },
+        PropDef { id: "C12", level: "exploration", run: c12::run, replay: c12::replay, replay_isolated: None },
+        PropDef { id: "C13", level: "exploration", run: c13::run, replay: c13::replay, replay_isolated: None },
         PropDef { id: "C14", level: "exploration", run: c14::run, replay: c14::replay, replay_isolated: None },
         PropDef { id: "C15", level: "exploration", run: c15::run, replay: c15::replay, replay_isolated: Some(c15::replay_isolated) },
         PropDef { id: "C16", level: "exploration", run: c16::run, replay: c16::replay, replay_isolated: None },
